@@ -46,8 +46,8 @@ def trees(draw):
                 # the same written name may be used by includers that live in different directories (each resolves to its own
                 # neighbour); -i files and everything included from below a -i directory keep unique names (write_tree enforces
                 # it) so that no include line ever has two documented candidates by accident
-                if child.place in ('same', 'sub') and draw(st.integers(0, 2)) == 0:   # (a name with `..` is also searched relative to each -i directory)
-                    child.name = draw(st.sampled_from(['body.asm', 'part.asm', 'defs.asm']))
+                if child.place in ('same', 'sub') and draw(st.booleans()):   # (a name with `..` is also searched relative to each -i directory)
+                    child.name = draw(st.sampled_from(['body.asm', 'defs.asm']))
                 child.form = draw(st.integers(0, 4))
                 if ambiguous[0] and child.place == 'same' and child.name.startswith('f') and not any(e[0] == 'inc' for e in child.entries):
                     ambiguous[0] = False
@@ -146,6 +146,7 @@ def write_tree(node, directory, rootdir, names_used, stats, depth=0, anc_dirs=()
         line = ['include %s', 'include "%s"', "include '%s'", 'include %s  # pulled in', 'include   %s'][form] % written
         text.append(line)
         stats['names'].append(os.path.basename(path))
+        stats.setdefault('written', {}).setdefault(written, set()).add(path)
     return '\n'.join(text) + ('\n' if text else '')
 
 
@@ -159,6 +160,8 @@ def run_cli(a, argv, cwd):
                 code = 0
             except SystemExit as ex:
                 code = ex.code if isinstance(ex.code, int) else (0 if ex.code is None else 1)
+            except Exception as ex:   # e.g. a RecursionError out of the code under test: a failed run
+                code = 'raised %s' % type(ex).__name__
     finally:
         sys.argv = old
     return code
@@ -240,6 +243,8 @@ def judge(case, res):
         res.count('ambiguous_name')
     if stats.get('ancestor_decoys'):
         res.count('trees_with_ancestor_decoys')
+    if any(len(v) > 1 for v in stats.get('written', {}).values()):
+        res.count('trees_where_one_include_text_means_different_files')
     if len(set(stats['names'])) < len(stats['names']):
         res.count('trees_with_same_name_in_several_directories')
     if got[0] == 'ok' and (stats['depth'] >= 2 or stats['incdir'] or case['cwd'] == 'elsewhere_decoys'):
@@ -260,9 +265,9 @@ def _load(d):
     return n
 
 
-def shard(n, s):
+def shard(n, s, shrink=False):
     res = env.Result()
-    env.run_hypothesis(judge, trees(), n, env.derive(env.seed_value(), PROP, s), res, env.load_known(), PROP, shrink=True)
+    env.run_hypothesis(judge, trees(), n, env.derive(env.seed_value(), PROP, s), res, env.load_known(), PROP, shrink=shrink)
     return res
 
 
@@ -276,7 +281,7 @@ def run(tier):
                 'equal (either candidate when a name is ambiguous). non-trivial = accepted tree with depth >= 2, a -i file, or decoys '
                 'in the cwd; distinct by (tree, cwd, mode)')
     per = max(1, N[tier] // env.NPROC)
-    chk.merge(env.run_shards(shard, [(per, s) for s in range(env.NPROC)]))
+    chk.merge(env.run_shards(shard, [(per, s, tier == 'thorough') for s in range(env.NPROC)]))   # shrinking file trees is slow: thorough only
     return chk.finish()
 
 
